@@ -35,8 +35,12 @@ def diff_snap(real, ref, where):
         if rl is None:
             return ("snap-share-missing", "%s: share %s missing in real store" % (where, path))
         items = dict((k, v) for k, v in rl["items"])
-        if set(items) != {"value"}:
-            return ("snap-share-fields", "%s: share %s fields real=%r" % (where, path, sorted(items)))
+        want = dict((k, v) for k, v in rf["items"])
+        if set(items) != set(want):
+            return ("snap-share-fields", "%s: share %s fields real=%r ref=%r" % (where, path, sorted(items), sorted(want)))
+        for k in want:
+            if k != "value" and not _val_eq(items[k], want[k]):
+                return ("snap-share-value", "%s: share %s field %s real=%r ref=%r" % (where, path, k, items[k], want[k]))
         if not _val_eq(items["value"], rf["items"][0][1]):
             return ("snap-share-value", "%s: share %s value real=%r ref=%r" % (where, path, items["value"], rf["items"][0][1]))
         if rl["stamp"] != rf["stamp"]:
